@@ -634,8 +634,8 @@ func (d *Driver) run(cfg Config, seed uint64) (res Result) {
 		res.Runs = append(res.Runs, run)
 	}
 	for i := range seenT {
-		res.SeenT = append(res.SeenT, seenT[i].String())
-		res.SeenF = append(res.SeenF, seenF[i].String())
+		res.SeenT = append(res.SeenT, "0x"+seenT[i].Text(16))
+		res.SeenF = append(res.SeenF, "0x"+seenF[i].Text(16))
 	}
 	return res
 }
@@ -873,25 +873,31 @@ func tuplesOf(radix []int) [][]int {
 	return out
 }
 
-func galElem(d *Def, tup []int) string {
-	vals := make([]string, len(d.Fields))
-	k := 0
+// galVals: per struct field the list of values the farm uses, as the key reads them.
+func galVals(d *Def) string {
+	out := make([]string, len(d.Fields))
 	for i, f := range d.Fields {
 		switch {
 		case len(f.Tags) == 0:
-			vals[i] = "VZ 0"
+			out[i] = "[VZ 0]"
 		case f.GoType == "bool":
-			vals[i] = "VB " + gal.Bool(f.Ranks[tup[k]] == 1)
-			k++
+			out[i] = gal.ListOf(f.Ranks, func(r int64) string { return "VB " + gal.Bool(r == 1) })
 		default:
-			vals[i] = "VZ " + gal.Z(f.Ranks[tup[k]])
-			k++
+			out[i] = gal.ListOf(f.Ranks, func(r int64) string { return "VZ " + gal.Z(r) })
 		}
 	}
-	return gal.List(vals)
+	return gal.List(out)
 }
 
-func natList(xs []int) string { return gal.ListOf(xs, func(v int) string { return strconv.Itoa(v) + "%nat" }) }
+// pack renders a list of small numbers as a string literal, three hex digits per entry.
+func pack(xs []int) string {
+	var b strings.Builder
+	b.WriteString("\"")
+	for _, x := range xs {
+		fmt.Fprintf(&b, "%03x", x)
+	}
+	return b.String() + "\"%string"
+}
 
 func emitCases(out *gal.Out, defs []Def, gens []genResult, res map[string]farmResult) {
 	for i := range defs {
@@ -918,7 +924,6 @@ func emitCases(out *gal.Out, defs []Def, gens []genResult, res map[string]farmRe
 					jc.GenLog = jc.GenLog[:1500]
 				}
 			}
-			univ := "[]"
 			if jc.GenOK {
 				jc.Text = gens[i].text[s]
 				jc.NV, jc.Exhaustive, jc.Slices, jc.LessCalls = fr.NV, fr.Exhaustive, fr.Slices, fr.LessCalls
@@ -926,7 +931,6 @@ func emitCases(out *gal.Out, defs []Def, gens []genResult, res map[string]farmRe
 				for _, r := range fr.Runs {
 					jc.Runs = append(jc.Runs, [3][]int{r.In, r.Sort, r.Stable})
 				}
-				univ = gal.ListOf(tups, func(t []int) string { return galElem(d, t) })
 			}
 			nlist := func(xs []string) string {
 				return gal.ListOf(xs, func(v string) string { return v + "%N" })
@@ -936,10 +940,10 @@ func emitCases(out *gal.Out, defs []Def, gens []genResult, res map[string]farmRe
 				"; gc_sorter := " + gal.Str(s) +
 				"; gc_gen_ok := " + gal.Bool(jc.GenOK) +
 				"; gc_text := " + gal.ListOf(jc.Text, gal.Str) +
-				"; gc_univ := " + univ +
+				"; gc_vals := " + galVals(d) +
 				"; gc_seen_t := " + nlist(jc.SeenT) + "; gc_seen_f := " + nlist(jc.SeenF) +
 				"; gc_runs := " + gal.ListOf(jc.Runs, func(r [3][]int) string {
-				return "{| sr_in := " + natList(r[0]) + "; sr_sort := " + natList(r[1]) + "; sr_stable := " + natList(r[2]) + " |}"
+				return "{| sr_in := " + pack(r[0]) + "; sr_sort := " + pack(r[1]) + "; sr_stable := " + pack(r[2]) + " |}"
 			}) + " |}"
 			out.Case(g, jc)
 		}
